@@ -81,4 +81,28 @@ META = {
         "note": _TB,
         "technique": "runtime monitoring: model-based differential checking, exhaustive small scope + random programs",
     },
+    "C10": {
+        "level": "runtime monitor over call histories on a CachedSource and its clones: every answer is compared with an uncached instance of the same tree (text, GeneratedInfo, attribution per character / per line), repeated map() answers must be equal, columns=false answers must not carry column detail, and the cache slots are peeked through hook verif_peek after every call (write-once per key)",
+        "design_ref": "DESIGN.md section 4, C10",
+        "note": _TB + "; wrapped trees exclude a CachedSource beneath a ReplaceSource because the reference instance must itself be history independent (that dependence is the known finding recorded under C03)",
+        "technique": "runtime monitoring: history replay against an uncached reference instance + cache-slot invariant hook",
+    },
+    "C12": {
+        "level": "runtime monitor with an independent reference codec: exhaustive sweep of all single-field deltas |d| < 2^12 (quick) / 2^20 (thorough) plus all 2^k-1, 2^k, 2^k+1 up to 2^30 in every field and sign through encoder and decoder, then random sorted sequences (subsequence + allowed-drop + attribution + re-encode checks), reference spellings with redundant digits / empty segments / backward columns / ';' runs against the crate decoder, and the lines-only encoder (hook)",
+        "design_ref": "DESIGN.md section 4, C12",
+        "note": _TB + "; the sweep is exhaustive only for single-field deltas of two-segment inputs",
+        "technique": "runtime monitoring: differential testing against a reference VLQ codec, exhaustive delta sweep",
+    },
+    "C14": {
+        "level": "runtime monitor: for random trees, a second build from the same constructor calls, a deep clone and a tree one edit away, ==/hash (through BoxSource, &dyn Source, update_hash) are taken before and after random observer histories applied to one operand only, and all observers are compared between equal values / clones and between first and second call (streams and maps by what they attribute)",
+        "design_ref": "DESIGN.md section 4, C14",
+        "note": _TB + "; one known finding (non-ASCII text through CachedSource replay) attributed by a precise trigger",
+        "technique": "runtime monitoring: history-perturbed equality / hash / observer coherence oracle",
+    },
+    "C20": {
+        "level": "runtime monitor: for pairs one edit apart (28 edit kinds at random depth) and independent pairs whose source()/buffer()/map() differ, hashes (FNV, SipHash, &dyn, update_hash) must differ and == must be false; hashes of a shared case stream are logged by 16 separate worker processes, recomputed in a second thread and after observer histories, and the merged log must be a function",
+        "design_ref": "DESIGN.md section 4, C20",
+        "note": _TB + "; a genuine 64-bit collision would be reported (expected ~1e-7 per run)",
+        "technique": "runtime monitoring: sensitivity oracle over one-edit pairs + offline join of per-process hash logs",
+    },
 }
